@@ -24,6 +24,7 @@ POOL = [
     "yc ~ 0 + x + (0 + x|g)", "(x|g)",
 ]
 FRAMES = ["sub", "rev", "newg", "newh", "newgh"]
+FRAMES_T = FRAMES + ["one", "dup"]
 _DF = None
 
 
@@ -45,6 +46,10 @@ def new_frame(kind):
         return df.iloc[[1, 4, 9, 16, 25]].reset_index(drop=True)
     if kind == "rev":
         return df.iloc[::-1].reset_index(drop=True)
+    if kind == "one":
+        return df.iloc[[13]].reset_index(drop=True)
+    if kind == "dup":
+        return df.iloc[[2, 2, 2, 8, 8]].reset_index(drop=True)
     nd = df.iloc[[0, 5, 11, 20]].reset_index(drop=True).copy()
     if kind in ("newg", "newgh"):
         g = nd["g"].astype(object)
@@ -60,7 +65,11 @@ def new_frame(kind):
 
 def units(tier, seed):
     depth = 2 if tier == "quick" else 3
-    return [[{"design": d, "depth": depth}] for d in POOL]
+    pool = list(POOL)
+    if tier == "thorough":
+        pool += ["y ~ f:g:x + (x|g)", "y ~ scale(x) + (scale(x) + f|g)", "y ~ (1|g) + (1|h) + (1|g:h)", "y ~ 0 + f + (0 + f:x|g) + (x|h)", "yc ~ f*x + (f|h)",
+                 "prop(s, n) ~ f + (1|g)", "y ~ poly(x, 3) + (poly(x, 2)|g)", "y ~ (C(k)|g) + (x|C(k))"]
+    return [[{"design": d, "depth": depth, "tier": tier}] for d in pool]
 
 
 def expand(unit):
@@ -194,7 +203,8 @@ def check_case(case, acc):
                 if M is not None and str(np.asarray(M.design_matrix).shape) not in txt:
                     problems.append(("printing", f"{fn.__name__}(design) does not report the shape {np.asarray(M.design_matrix).shape}"))
         has_groups = dm.group is not None
-        frames_here = FRAMES if has_groups else ["sub", "rev"]
+        thorough = case.get("tier") == "thorough"
+        frames_here = (FRAMES_T if thorough else FRAMES) if has_groups else (["sub", "rev", "one", "dup"] if thorough else ["sub", "rev"])
         direct = {}
         nstates = 0
         for kind, root in roots:
@@ -234,7 +244,7 @@ def check_case(case, acc):
                         elif key in direct and not same(direct[key], snap):
                             problems.append(("reached-from-elsewhere", f"{what} differs from {kind} via {fk} alone (matrix, slices or factors_with_new_levels)"))
                         if kind == "group":
-                            expf = {"sub": (), "rev": (), "newg": "g", "newh": "h", "newgh": "gh"}[fk]
+                            expf = {"sub": (), "rev": (), "one": (), "dup": (), "newg": "g", "newh": "h", "newgh": "gh"}[fk]
                             got = child.factors_with_new_levels
                             facs = [t.factor.name for t in child.terms.values()]
                             want = tuple(dict.fromkeys(f_ for f_ in facs if any(c in f_.split(":") for c in expf)))
